@@ -108,6 +108,7 @@ def run(ck):
     for b in (rng.sample(zrecs, zl) if len(zrecs) > zl else zrecs):
         replay(ck, em, b, rng, 3)
     ck.extra["behaviours_exported"] = len(behaviours)
+    wide_and_reloaded(ck, em, rng, 6 if quick else 40)
 
 
 def responsibilities(w, mu, var, X):
@@ -284,3 +285,61 @@ def replay(ck, em, beh, rng, n):
         if not ok:
             return bad("SameCoversSameValue", "combined statistics differ from accumulation over the whole data set")
     ck.sample({"mechanism": "M2", "behaviour": [(h["op"], h["block"] or [h["a"], h["b"]]) for h in beh["hist"]], "verdict": "ok"})
+
+
+def wide_and_reloaded(ck, em, rng, count):
+    """SameCoversSameValue / MismatchRefused on statistics whose dimensions are not small Python ints: machines with a few
+    hundred features or Gaussians, and containers that were written to a file and read back (their dimensions come
+    back as NumPy integers) combined with fresh ones -- equal shapes add, unequal shapes are refused."""
+    import os
+    for i in range(count):
+        seed = rng.randrange(10 ** 6)
+        r = np.random.RandomState(seed)
+        C, D = [(2, 300), (300, 2), (3, 4), (2, 3), (1, 257), (258, 1)][i % 6]
+        n = 8
+        m = em.GMMMachine(C)
+        m.means = r.normal(size=(C, D))
+        m.variances = r.uniform(0.5, 2, size=(C, D))
+        X = r.normal(size=(n, D))
+        whole = fields(m.acc_stats(X))
+        a, b = m.acc_stats(X[:3]), m.acc_stats(X[3:])
+        ck.replayed += 1
+        ck.seen(["wide-reloaded", seed, C, D])
+        scn = {"seed": seed, "C": C, "D": D}
+
+        def bad(clause, detail):
+            ck.violation("M2:GmmStats:" + clause, {"mechanism": "M2", "module": "GmmStats", "scenario": scn, "detail": detail})
+
+        def same(x, y):
+            return x[0] == y[0] and all(np.allclose(p_, q_, rtol=1e-9, atol=1e-10) for p_, q_ in zip(x[1:4], y[1:4])) \
+                and abs(x[4] - y[4]) <= 1e-9 * max(1, abs(y[4]))
+        path = os.path.join(ck.work, "st%d.hdf5" % i)
+        b.save(path)
+        b2 = em.GMMStats.from_hdf5(path)
+        b3 = em.GMMStats(C, D)
+        b3.load(path)
+        os.remove(path)
+        try:
+            tot = [("a + b", fields(a + b)), ("a + (b read back from a file)", fields(a + b2)), ("(b loaded into a container) + a", fields(b3 + a))]
+            acc = m.acc_stats(X[:3])
+            acc += b2
+            tot.append(("a += (b read back from a file)", fields(acc)))
+            import dask
+            import dask.array as da
+            with dask.config.set(scheduler="synchronous"):
+                g = em.GMMMachine(C, max_fitting_steps=1, convergence_threshold=None)
+                g.means, g.variances = np.array(m.means), np.array(m.variances)
+                g.fit(da.from_array(X, chunks=((3, 3, 2), D)))
+        except Exception as e:      # noqa: BLE001
+            bad("SameCoversSameValue", "statistics of equal shape (%d, %d) could not be combined: %s: %s" % (C, D, type(e).__name__, e))
+            continue
+        wrong = [h for h, f in tot if not same(f, whole)]
+        if wrong:
+            bad("SameCoversSameValue", "shape (%d, %d): %s differ(s) from the whole-set statistics" % (C, D, ", ".join(wrong)))
+            continue
+        other = em.GMMStats(C + 1, D)
+        try:
+            a + other
+            bad("MismatchRefused", "shape (%d, %d) + shape (%d, %d) was not refused" % (C, D, C + 1, D))
+        except ValueError:
+            pass
